@@ -22,6 +22,7 @@ META = dict(
          "that margin > 0 at run time is not decided (the library asserts it only in find_sample_size).",
     technique="AST-to-algebra identity across sibling sites + decision tables + ordering (dominance) rule",
 )
+META["text"] += ' (R6 = C02.R2) the plurality and super-majority assorters take values in [0, declared upper_bound], and the three places stating the super-majority bound agree.'
 
 SPEC_U = '''
 def spec(at, v, ua):
